@@ -694,7 +694,22 @@ def r_sharedtable(prog, tier):
         if not grew:
             break
     n = 0
+    called_in_functions = set()
+    for g in funcs:
+        for c in walk_own(g.node):
+            if isinstance(c, ast.Call):
+                tgt = prog.callee(c, g)
+                if tgt:
+                    called_in_functions.add('%s.%s' % tgt)
+            elif isinstance(c, ast.Name) and isinstance(c.ctx, ast.Load):
+                called_in_functions.add('%s.%s' % (g.module.name, c.id))        # handed on as a value
     for f in funcs:
+        at_load = any(isinstance(y, ast.Call) and isinstance(y.func, ast.Name) and y.func.id == f.node.name
+                      for st in f.module.tree.body if not isinstance(st, (ast.FunctionDef, ast.ClassDef)) for y in ast.walk(st)) \
+            or any(isinstance(dec, ast.Name) and dec.id == f.node.name for g in funcs if g.module is f.module
+                   for dec in g.node.decorator_list)
+        if at_load and f.fq not in called_in_functions and f.cls is None:
+            continue            # called while the module is loaded only (a registering decorator, a table builder)
         derived = _derived_locals(prog, f, tables, fed.get(f.fq, {}))
         for x in walk_own(f.node):
             hit = None
